@@ -8,3 +8,28 @@ From WF Require Import model.Base model.RunState model.Graph model.EngineBase mo
 Theorem C12_fire_only_while_waiting : forall c ops, hist_ok ops -> forall t, In t (trace_of c ops) -> mon_C12 (ec_graph c) t = true.
 Proof. intros c ops H t Ht. apply (monitors_hold c ops H t Ht). Qed.
 Print Assumptions C12_fire_only_while_waiting.
+
+(* ---- the bundled timeout store ---- *)
+From WF Require Import model.Timeouts proofs.TimeoutsProofs.
+
+(* for EVERY operation sequence (create, complete, cancel — also of unknown IDs —, list due, list) the model of
+   adapters/memtimeoutstore answers exactly as the reference timer list *)
+Theorem C12_store_refines : forall ops, tmem_run mtstore0 ops = tref_run rtstore0 ops.
+Proof. intros ops. exact (timeouts_refine ops mtstore0 rtstore0 trel0). Qed.
+Print Assumptions C12_store_refines.
+
+(* the reference: a timer is listed as due exactly when it is of that workflow and status, neither completed nor
+   cancelled, and expired at or before the instant *)
+Theorem C12_due_iff : forall (s : rtstore) (wf : N) (status now : Z) (t : trec),
+  (exists l, snd (tref_step s (TOListValid wf status now)) = TbList l /\ In t l) <->
+  exists x, In x (rts_timers s) /\ rt_rec x = t /\ rt_cancelled x = false /\
+            t_wf t = wf /\ t_status t = status /\ t_completed t = false /\ t_expire t <= now.
+Proof. exact ref_due_iff. Qed.
+Print Assumptions C12_due_iff.
+
+(* completing or cancelling one ID — or an unknown ID — leaves every other timer as it was *)
+Theorem C12_others_untouched : forall (s : rtstore) (o : top) (id : Z) (x : rtimer),
+  (o = TOComplete id \/ o = TOCancel id) -> In x (rts_timers s) -> t_id (rt_rec x) <> id ->
+  In x (rts_timers (fst (tref_step s o))).
+Proof. exact ref_other_untouched. Qed.
+Print Assumptions C12_others_untouched.
